@@ -12,6 +12,7 @@ mod comp_rtte;
 mod comp_rx;
 mod comp_segs;
 mod comp_tx;
+mod comp_vsock;
 mod comp_wire;
 mod comp_seqnr;
 mod util;
@@ -24,6 +25,7 @@ const DISPATCHERS: &[fn(&[&str]) -> Option<String>] = &[
     comp_tx::dispatch,
     comp_cubic::dispatch,
     comp_wire::dispatch,
+    comp_vsock::dispatch,
 ];
 
 fn run_consts() -> String {
